@@ -321,7 +321,13 @@ def check_carry_forward(ctx: Ctx, rule_prefix: str = 'R8') -> None:
                         if isinstance(b, ast.Assign) and isinstance(b.targets[0], ast.Tuple) and len(b.targets[0].elts) == 2 \
                                 and isinstance(b.targets[0].elts[1], ast.Name) and b.targets[0].elts[1].id == nm and isinstance(b.value, ast.Await) \
                                 and is_call_to(repo, d, b.value.value, 'application.patch_and_check'):
-                            okd = 'patch' in tg
+                            # the patch handed to the next attempt is the rebuilt one: either the local alias is rebound together with cause.patch, or
+                            # the loop (re-)reads its patch from cause.patch after the rebuild (an alias bound inside the loop, `p = cause.patch`)
+                            used = kwarg(b.value.value, 'patch')
+                            used_name = used.id if isinstance(used, ast.Name) else None
+                            reread = any(isinstance(c, ast.Assign) and any(isinstance(t, ast.Name) and t.id == used_name for t in c.targets) and src(c.value) == 'cause.patch'
+                                         and any(c is x for lp in walk_no_defs(d.node) if isinstance(lp, (ast.While, ast.For)) for x in ast.walk(lp)) for c in walk_no_defs(d.node))
+                            okd = (used_name is not None and used_name in tg) or reread or src(used) == 'cause.patch'
         ctx.ob(r5, f'{d.short}: after each attempt the handler patch is rebuilt from the remaining patch (both `patch` and `cause.patch`)', okd, loc=d.loc(),
                construct=construct(d, 'flow:Patch(remaining_patch)'))
 
